@@ -133,7 +133,7 @@ func checkC02(w *World, r *Report) {
 	c02Predicates(w, r, a, cmpFn)
 	c02Responses(w, r, a)
 	c02OneSnapshot(w, r, a, "C02.e", "e-one-snapshot")
-	c02Readonly(w, r, a)
+	c02Readonly(w, r, a, "C02.f", "f-readonly-classification")
 	applyLoopComplete(w, r, a, "C02.g", "g-every-operation-applied")
 }
 
@@ -863,8 +863,8 @@ func c02OneSnapshot(w *World, r *Report, a *FsmA, id, slug string) {
 	ob.NeedFloor(2)
 }
 
-func c02Readonly(w *World, r *Report, a *FsmA) {
-	ob := r.Ob("C02.f", "f-readonly-classification", "IsReadonly: from every edge on which an operation is not a range read only `return false` is reachable, and both lists are inspected; the table layer takes the read path, and the forwarding server answers locally, only on the IsReadonly()==true edge", "a transaction with a write classified read-only is executed by the read path: its writes are silently dropped")
+func c02Readonly(w *World, r *Report, a *FsmA, id, slug string) {
+	ob := r.Ob(id, slug, "IsReadonly: from every edge on which an operation is not a range read only `return false` is reachable, and both lists are inspected; the table layer takes the read path, and the forwarding server answers locally, only on the IsReadonly()==true edge", "a transaction with a write classified read-only is executed by the read path: its writes are silently dropped")
 	isro := w.Func("regattapb", "TxnRequest.IsReadonly")
 	if isro == nil {
 		ob.Undecided("anchor", "regattapb.TxnRequest.IsReadonly not found")
